@@ -41,6 +41,61 @@ def run(index, rep, tier):
             rep.check(not missing, "R16.6", m.qualname, "caches not dropped when the member states change: %s" % missing, fn_where(m, ws[0].stmt), "%s drops all %d caches" % (m.qualname, len(caches)),
                       "%s (re)defines the member states of a state but leaves the cached %s in place: after the alphabet changes (a state added, tables recompiled) an ambiguity / missing-data symbol keeps the state set of the old alphabet, so cells scored with it force spurious changes and the score is above the minimum" % (m.qualname, ", ".join(missing)))
         rep.floor("R16.6", "functions defining the member states", 2, nw)
+    rep.rule("R16.8", "derived state sets follow the alphabet: a StateAlphabet compile step that (re)defines a state's member states from one of the alphabet's state lists is re-run, while auto-compilation is on, by every method that grows that list (the missing-data state is 'all fundamental states')")
+    with rep.section("R16.8"):
+        SA = index.klass("dendropy.datamodel.charstatemodel.StateAlphabet")
+
+        def lists_read(expr, depth=0):
+            out = set()
+            for x in ast.walk(expr):
+                if isinstance(x, ast.Attribute) and isinstance(x.value, ast.Name) and x.value.id == "self" and x.attr.startswith("_") and x.attr.endswith("_states"):
+                    out.add(x.attr)
+                if isinstance(x, ast.Call) and isinstance(x.func, ast.Attribute) and norm(x.func.value) == "self" and x.func.attr in SA.methods and depth < 3:
+                    for r in ast.walk(SA.methods[x.func.attr].node):
+                        if isinstance(r, ast.Return) and r.value is not None:
+                            out |= lists_read(r.value, depth + 1)
+            return out
+        derive = {}   # compile method -> lists its member-state definitions read
+        for m in SA.methods.values():
+            for a in walk_no_nested(m.node):
+                if isinstance(a, ast.Assign) and isinstance(a.targets[0], ast.Attribute) and a.targets[0].attr in ("member_states", "_member_states") and norm(a.targets[0].value) != "self":
+                    ls = lists_read(a.value)
+                    if ls:
+                        derive.setdefault(m.name, set()).update(ls)
+        rep.floor("R16.8", "compile steps defining member states from a state list", 1, len(derive))
+        # wrappers that run a compile step on every path
+        runs = {c: {c} for c in derive}
+        for m in SA.methods.values():
+            if m.name in derive:
+                continue
+            g = cfg_of(m)
+            for c in derive:
+                ok, _w = g.must_pass(g.entry, lambda n, c=c: any(norm(k.func) == "self." + c for k in node_calls(n)), skip_src=False)
+                if ok:
+                    runs[c].add(m.name)
+        ngrow = 0
+        for m in SA.methods.values():
+            if m.name == "__init__" or m.name in derive:
+                continue
+            g = cfg_of(m)
+            for w in writes_in(m.node):
+                if not (w.kind == "mutcall" and w.base is not None and norm(w.base) == "self" and w.method in ("append", "extend", "insert", "add")):
+                    continue
+                for c, ls in sorted(derive.items()):
+                    if w.attr not in ls:
+                        continue
+                    ngrow += 1
+                    nodes = g.nodes_of_stmt(w.stmt)
+                    bad = None
+                    for nd in nodes:
+                        ok, wit = g.must_pass(nd, lambda n, c=c: any(norm(k.func) in ["self." + r for r in runs[c]] for k in node_calls(n)),
+                                              edge_ok=lambda a_, lab, b_: not (a_.kind == "test" and norm(a_.ast) == "self.autocompile_lookup_tables" and lab == "f"))
+                        if not ok:
+                            bad = wit
+                    rep.check(bad is None, "R16.8", m.qualname, "grows %s without re-running %s" % (w.attr, c), fn_where(m, w.stmt), "%s grows %s and re-runs %s" % (m.name, w.attr, c),
+                              "%s adds a state to `%s` and, with auto-compilation on, can return without running %s, which is what defines the member states derived from that list (the missing-data state = all fundamental states): the alphabet's `?` keeps the old state set, so the Fitch pass treats a missing cell as excluding the new state and counts a change that the minimum does not need" % (m.qualname, w.attr, c))
+        rep.floor("R16.8", "growth sites of lists that member states are derived from", 1, ngrow)
+
     rep.rule("R16.7", "the state sets are read off the matrix on every call: DiscreteCharacterMatrix.taxon_state_sets_map stores nothing on the matrix (no memo that an in-place cell edit would leave stale)")
     with rep.section("R16.7"):
         tsm = index.function("dendropy.datamodel.charmatrixmodel.DiscreteCharacterMatrix.taxon_state_sets_map")
